@@ -469,16 +469,25 @@ func Run(k *fw.Case) {
 		case 2:
 			state = "one-rule-removed"
 			pr := ByPriority(g.Known.Rules)
-			victim := pr[k.Index/8%2].Name // the first or the middle rule: rules behind it move up
+			victims := []string{pr[k.Index/8%2].Name} // the first or the middle rule: rules behind it move up
+			if k.Index/16%3 == 2 {
+				// two of the three go: exactly ONE rule is left
+				state = "one-rule-left"
+				victims = []string{pr[0].Name, pr[1+k.Index/8%2].Name}
+			}
+			gone := map[string]bool{}
+			for _, v := range victims {
+				gone[v] = true
+			}
 			var rest []RRule
 			for _, ru := range g.Known.Rules {
-				if ru.Name != victim {
+				if !gone[ru.Name] {
 					rest = append(rest, ru)
 				}
 			}
 			g.Known = &Known{Rules: rest, Text: loadText}
-			prepB = func(rb *builder.RuleBuilder) error { return rb.RemoveRules([]string{victim}) }
-			prepP = func(p *engine.GenginePool) error { return p.RemoveRules([]string{victim}) }
+			prepB = func(rb *builder.RuleBuilder) error { return rb.RemoveRules(victims) }
+			prepP = func(p *engine.GenginePool) error { return p.RemoveRules(victims) }
 		case 5:
 			state = "emptied"
 			all := g.Known.Names()
